@@ -497,4 +497,175 @@ theorem simpsPoints_length (sym intC : Bool) (c : List ℚ) (hc : 2 ≤ c.length
           simp at hi ⊢; omega
 
 
+theorem seg_nonneg : ∀ (xs ys : List ℚ) (x : ℚ), StrictInc xs → (∀ y ∈ ys, 0 ≤ y) → (∀ a, xs.head? = some a → a ≤ x) →
+    0 ≤ seg xs ys x := by
+  intro xs
+  induction xs with
+  | nil => intro ys x _ hy _; cases ys with
+    | nil => simp [seg]
+    | cons y0 _ => simp only [seg]; exact hy y0 (by simp)
+  | cons x0 xs ih =>
+    intro ys x hs hy hx
+    cases xs with
+    | nil => cases ys with
+      | nil => simp [seg]
+      | cons y0 _ => simp only [seg]; exact hy y0 (by simp)
+    | cons x1 rest =>
+      cases ys with
+      | nil => simp [seg]
+      | cons y0 ys => cases ys with
+        | nil => simp only [seg]; exact hy y0 (by simp)
+        | cons y1 ys' =>
+          have h01 : x0 < x1 := (List.pairwise_cons.mp hs).1 x1 (by simp)
+          have hx0 : x0 ≤ x := hx x0 (by simp)
+          have hy0 := hy y0 (by simp); have hy1 := hy y1 (by simp)
+          by_cases hx1 : x ≤ x1
+          · simp only [seg, hx1, if_true]
+            have hd : 0 < x1 - x0 := by linarith
+            have : (y1 - y0) / (x1 - x0) * (x - x0) + y0 = (y1 * (x - x0) + y0 * (x1 - x)) / (x1 - x0) := by
+              field_simp; ring
+            rw [this]
+            apply div_nonneg _ (le_of_lt hd)
+            have : 0 ≤ x - x0 := by linarith
+            have : 0 ≤ x1 - x := by linarith
+            positivity
+          · simp only [seg, hx1, if_false]
+            apply ih (y1 :: ys') x (List.pairwise_cons.mp hs).2 (fun y hy' => hy y (by simp at hy' ⊢; tauto))
+            intro a ha; simp at ha; subst ha; linarith
+
+theorem interpAt_nonneg (xs ys : List ℚ) (fl fr x : ℚ) (hs : StrictInc xs) (hy : ∀ y ∈ ys, 0 ≤ y) (hfl : 0 ≤ fl) (hfr : 0 ≤ fr) :
+    0 ≤ interpAt xs ys fl fr x := by
+  unfold interpAt
+  cases ha : xs.head? with
+  | none => simpa using hfl
+  | some a =>
+    cases hb : xs.getLast? with
+    | none => simpa using hfl
+    | some b =>
+      simp only []
+      by_cases h1 : x < a
+      · simp [h1, hfl]
+      · by_cases h2 : b < x
+        · simp [h1, h2, hfr]
+        · simp only [h1, h2, if_false]
+          exact seg_nonneg xs ys x hs hy (fun a' ha' => by rw [ha] at ha'; cases ha'; linarith)
+
+/-- adjacent entries are non-decreasing -/
+def adjLe : List ℚ → Prop
+  | x0 :: x1 :: xs => x0 ≤ x1 ∧ adjLe (x1 :: xs)
+  | _ => True
+
+theorem trapzBins_nonneg_adj : ∀ x f : List ℚ, adjLe x → (∀ v ∈ f, 0 ≤ v) → ∀ b ∈ trapzBins x f, 0 ≤ b := by
+  intro x
+  induction x with
+  | nil => intro f _ _ b hb; simp [trapzBins] at hb
+  | cons x0 x ih =>
+    intro f hx hf b hb
+    cases x with
+    | nil => simp [trapzBins] at hb
+    | cons x1 xs => cases f with
+      | nil => simp [trapzBins] at hb
+      | cons f0 f => cases f with
+        | nil => simp [trapzBins] at hb
+        | cons f1 fs =>
+          simp only [trapzBins, Gen.trapzTerm, List.mem_cons] at hb
+          rcases hb with rfl | hb
+          · have h01 : x0 ≤ x1 := hx.1
+            have := hf f0 (by simp); have := hf f1 (by simp)
+            have : 0 ≤ x1 - x0 := by linarith
+            positivity
+          · exact ih (f1 :: fs) hx.2 (fun v hv => hf v (by simp [hv])) b hb
+
+theorem adjLe_edges : ∀ (c : List ℚ) (c0 e hiE : ℚ), StrictInc (c0 :: c) → c ≠ [] → e ≤ c0 →
+    (∀ l, (c0 :: c).getLast? = some l → l ≤ hiE) → adjLe (e :: midpoints (c0 :: c) ++ [hiE]) := by
+  intro c
+  induction c with
+  | nil => intro c0 e hiE _ hne; exact absurd rfl hne
+  | cons c1 cs ih =>
+    intro c0 e hiE hs _ he hl
+    have h01 : c0 < c1 := (List.pairwise_cons.mp hs).1 c1 (by simp)
+    have hm0 : c0 ≤ Gen.binMid c0 c1 := by simp only [Gen.binMid]; linarith
+    have hm1 : Gen.binMid c0 c1 ≤ c1 := by simp only [Gen.binMid]; linarith
+    cases cs with
+    | nil =>
+      simp only [midpoints, List.cons_append, List.nil_append, adjLe]
+      exact ⟨le_trans he hm0, le_trans hm1 (hl c1 (by simp)), trivial⟩
+    | cons c2 cs' =>
+      have := ih c1 (Gen.binMid c0 c1) hiE (List.pairwise_cons.mp hs).2 (by simp) hm1
+        (fun l hl' => hl l (by rw [List.getLast?_cons_cons]; exact hl'))
+      simp only [midpoints, List.cons_append, adjLe] at this ⊢
+      exact ⟨le_trans he hm0, this⟩
+
+theorem secondLast_lt_last (l : List ℚ) (cl cp : ℚ) (hs : StrictInc l) (h1 : l.getLast? = some cl) (h2 : l.dropLast.getLast? = some cp) :
+    cp < cl := by
+  have hne : l ≠ [] := by intro h; simp [h] at h1
+  have hd := List.dropLast_append_getLast? cl (by simpa using h1)
+  rw [← hd] at hs
+  have := (List.pairwise_append.mp hs).2.2 cp (List.mem_of_getLast? h2) cl (by simp)
+  exact this
+
+theorem adjLe_trapzEdges (sym : Bool) (c : List ℚ) (hs : StrictInc c) : adjLe (trapzEdges sym c) := by
+  unfold trapzEdges
+  match c, hs with
+  | [], _ => simp [adjLe]
+  | [c0], _ => simp [adjLe]
+  | c0 :: c1 :: cs, hs =>
+    cases hl : (c0 :: c1 :: cs).getLast? with
+    | none => simp [adjLe]
+    | some cl =>
+      cases hp : ((c0 :: c1 :: cs).dropLast).getLast? with
+      | none => simp [adjLe]
+      | some cp =>
+        simp only []
+        have hlt := secondLast_lt_last _ cl cp hs hl hp
+        have h01 : c0 < c1 := (List.pairwise_cons.mp hs).1 c1 (by simp)
+        apply adjLe_edges (c1 :: cs) c0 _ _ hs (by simp)
+        · cases sym <;> simp [Gen.binEndLo] <;> linarith
+        · intro l hl'; rw [hl] at hl'; cases hl'
+          cases sym <;> simp [Gen.binEndHi] <;> linarith
+
+
+theorem adjLe_of_strictInc : ∀ l : List ℚ, StrictInc l → adjLe l := by
+  intro l
+  induction l with
+  | nil => intro _; trivial
+  | cons x xs ih =>
+    intro h
+    cases xs with
+    | nil => trivial
+    | cons y ys => exact ⟨le_of_lt ((List.pairwise_cons.mp h).1 y (by simp)), ih (List.pairwise_cons.mp h).2⟩
+
+theorem trapz_nonneg : ∀ w v : List ℚ, adjLe w → (∀ y ∈ v, 0 ≤ y) → 0 ≤ trapz w v := by
+  intro w
+  induction w with
+  | nil => intro v _ _; simp [trapz]
+  | cons x0 w ih =>
+    intro v hw hv
+    cases w with
+    | nil => simp [trapz]
+    | cons x1 xs => cases v with
+      | nil => simp [trapz]
+      | cons y0 v => cases v with
+        | nil => simp [trapz]
+        | cons y1 ys =>
+          have := ih (y1 :: ys) hw.2 (fun y hy => hv y (by simp [hy]))
+          have h0 := hv y0 (by simp); have h1 := hv y1 (by simp)
+          have hx : 0 ≤ x1 - x0 := by have := hw.1; linarith
+          simp only [trapz]
+          have hs : 0 ≤ y1 + y0 := by linarith
+          have : 0 ≤ (x1 - x0) * (y1 + y0) / 2 := div_nonneg (mul_nonneg hx hs) (by norm_num)
+          linarith
+
+theorem mem_keepMask (m : List Bool) : ∀ (l : List ℚ) (x : ℚ), x ∈ keepMask m l → x ∈ l :=
+  fun l x hx => (keepMask_sublist m l).subset hx
+
+theorem sumL_nonneg (l : List ℚ) (h : ∀ x ∈ l, 0 ≤ x) : 0 ≤ sumL l := by
+  rw [sumL_eq_sum]
+  induction l with
+  | nil => simp
+  | cons a l ih =>
+    have := ih (fun x hx => h x (by simp [hx]))
+    have := h a (by simp)
+    simp only [List.sum_cons]; linarith
+
 end Lentil.Spec
